@@ -148,6 +148,13 @@ func VerifC12Sufficient(n int) {
 	}
 }
 
+func verifLaneQualifies(l, h *[consts.HashTrinarySize]uint, j int, tv uint64, target *big.Int) bool {
+	if verifSymbolic() {
+		return verifUF("laneHash", 64, []byte{byte(j)}) <= tv
+	}
+	return stateToInt(l, h, uint(j)).Cmp(target) <= 0
+}
+
 // stub for stateToInt: an arbitrary hash value per lane (meaning checked by VerifC12ToInt/StateToInt)
 func verifStubStateToInt(l, h *[consts.HashTrinarySize]uint, idx uint) *big.Int {
 	return new(big.Int).SetUint64(verifUF("laneHash", 64, []byte{byte(idx)}))
@@ -174,6 +181,15 @@ func VerifC12CheckState(s int) {
 	}
 	tv := verifU64("target")
 	target := new(big.Int).SetUint64(tv)
+	if !verifSymbolic() {
+		// native replay: stateToInt is the real one; use the two extreme targets (every lane
+		// qualifies / no lane qualifies) instead of the uninterpreted lane values of the model
+		if verifVariant() == 0 {
+			target = new(big.Int).Set(maxHash)
+		} else {
+			target = new(big.Int)
+		}
+	}
 	got := checkStateTrits(&l, &h, s, target)
 
 	// reference, lane by lane
@@ -198,7 +214,7 @@ func VerifC12CheckState(s int) {
 			first = j
 		}
 		if zc == s-1 {
-			if verifUF("laneHash", 64, []byte{byte(j)}) <= tv {
+			if verifLaneQualifies(&l, &h, j, tv, target) {
 				cand = j
 			}
 		}
@@ -256,4 +272,76 @@ func verifStubToInt(trits []int8) *big.Int {
 		}
 	}
 	return big.NewInt(1)
+}
+
+// VerifC12CheckStateReal: the same specification with the real stateToInt/toInt (no stub), for
+// the lanes 0, 1, 62, 63 and an arbitrary target below 3^243: counterexamples replay natively.
+//
+//verif:run quick s=2
+//verif:run thorough s=3
+//verif:big int
+//verif:solver z3
+//verif:timeout 300
+func VerifC12CheckStateReal(s int) {
+	var l, h [consts.HashTrinarySize]uint
+	const lanes = uint(0xC000000000000003)
+	for i := 0; i < consts.HashTrinarySize-s; i++ {
+		l[i], h[i] = ^uint(0), ^uint(0) // trit 0 in every lane
+	}
+	for i := consts.HashTrinarySize - s; i < consts.HashTrinarySize; i++ {
+		l[i] = uint(verifU64("l"))&lanes | ^lanes
+		h[i] = uint(verifU64("h")) & lanes // other lanes: (1,0) = -1, a non-zero trit
+		verifAssume((l[i]|h[i])&lanes == lanes) // valid codes only
+	}
+	target := verifBig("target", 386)
+	got := checkStateTrits(&l, &h, s, target)
+
+	anyShort := false
+	first := 64
+	cand := 64
+	for _, j := range []int{63, 62, 1, 0} {
+		zc := 0
+		run := true
+		for i := consts.HashTrinarySize - 1; i >= consts.HashTrinarySize-s; i-- {
+			if ((l[i]^h[i])>>uint(j))&1 != 0 {
+				run = false
+			}
+			if run {
+				zc++
+			}
+		}
+		if zc >= s-1 {
+			anyShort = true
+		}
+		if zc >= s {
+			first = j
+		}
+		if zc == s-1 {
+			// hash value of lane j: 1 + sum d_i 3^i over its trits (only the last s can be non-zero)
+			hv := big.NewInt(1)
+			for i := consts.HashTrinarySize - s; i < consts.HashTrinarySize; i++ {
+				lb, hb := (l[i]>>uint(j))&1, (h[i]>>uint(j))&1
+				d := int64(0)
+				if lb == 0 && hb == 1 {
+					d = 1
+				}
+				if lb == 1 && hb == 0 {
+					d = 2
+				}
+				hv.Add(hv, new(big.Int).Mul(big.NewInt(d), verifPow3(i)))
+			}
+			if hv.Cmp(target) <= 0 {
+				cand = j
+			}
+		}
+	}
+	want := 64
+	if anyShort {
+		if first < 64 {
+			want = first
+		} else {
+			want = cand
+		}
+	}
+	verifAssert("lane.real", got == want)
 }
